@@ -1,0 +1,33 @@
+#ifndef SQUIDS_DETAIL_VERIF_H
+#define SQUIDS_DETAIL_VERIF_H
+
+// Verification hooks. Everything in this file, and every use of the macros below,
+// compiles to nothing unless SQUIDS_VERIF is defined. With SQUIDS_VERIF the hooks
+// call through function pointers which are null (so still do nothing) unless a
+// test harness installs a sink.
+
+#ifdef SQUIDS_VERIF
+namespace squids{
+namespace verif{
+  ///receives one event: a tag, up to two addresses and two integers
+  typedef void (*event_fn)(const char* tag, const void* p0, const void* p1, long a, long b);
+  ///called at a yield point (before an atomic access in the shared cache)
+  typedef void (*yield_fn)(const char* tag, const void* obj, long a);
+  inline event_fn& event_sink(){ static event_fn f=nullptr; return f; }
+  inline yield_fn& yield_sink(){ static yield_fn f=nullptr; return f; }
+}
+}
+#define SQUIDS_VERIF_EVENT(tag,p0,p1,a,b) do{ \
+  if(::squids::verif::event_sink()) \
+    ::squids::verif::event_sink()(tag,(const void*)(p0),(const void*)(p1),(long)(a),(long)(b)); \
+  }while(0)
+#define SQUIDS_VERIF_YIELD(tag,obj,a) do{ \
+  if(::squids::verif::yield_sink()) \
+    ::squids::verif::yield_sink()(tag,(const void*)(obj),(long)(a)); \
+  }while(0)
+#else
+#define SQUIDS_VERIF_EVENT(tag,p0,p1,a,b) do{}while(0)
+#define SQUIDS_VERIF_YIELD(tag,obj,a) do{}while(0)
+#endif
+
+#endif //SQUIDS_DETAIL_VERIF_H
